@@ -305,13 +305,52 @@ CanonReaches ==
 
 NParens(ch, pd) == Cardinality({i \in 1..Len(ch) : ch[i].x}) + (IF pd.x THEN 1 ELSE 0)
 
+-----------------------------------------------------------------------------
+(* C08 at the level of symbols: INCLUDE is textual inclusion.                    *)
+(* A document is "clean" when every included file holds a run of complete         *)
+(* directives that stands outside every parenthesis: no parenthesis is open at    *)
+(* an INCLUDE or at the end of an included file, no "(" directly follows either    *)
+(* boundary (it would belong to a directive on the other side), and JSIGHT stays  *)
+(* in the root file.  For clean documents the meaning of the multi-file document  *)
+(* is the meaning of the document with the boundaries erased.                     *)
+
+IsBoundary(s) == s.t \in {"fb", "fe"}
+Flat(d) == SelectSeq(d, LAMBDA s : ~IsBoundary(s))
+CountT(d, n, t) == Cardinality({j \in 1..n : d[j].t = t})
+ParenDepth(d, n) == CountT(d, n, "open") - CountT(d, n, "close")
+IncDepth(d, n)   == CountT(d, n, "fb") - CountT(d, n, "fe")
+\* position of item i of d in Flat(d) (for items that are not boundaries)
+FlatPos(d, i) == Cardinality({j \in 1..i : ~IsBoundary(d[j])})
+
+CleanIncludes(d) ==
+  \A i \in 1..Len(d) :
+     /\ IsBoundary(d[i]) => /\ ParenDepth(d, i - 1) = 0
+                            /\ (i < Len(d) => d[i + 1].t # "open")
+     /\ (d[i].t = "kw" /\ d[i].k = "JSIGHT") => IncDepth(d, i - 1) = 0
+     /\ d[i].t = "close" => ParenDepth(d, i - 1) > 0      \* no stray ")" (it would be judged at different places)
+
+InliningOK(d) ==
+  CleanIncludes(d) =>
+    LET m == Meaning(d)
+        f == Meaning(Flat(d))
+    IN /\ m.v = f.v
+       /\ m.v = "ok" => \A i \in 1..Len(d) :
+                            d[i].t = "kw" =>
+                              f.par[FlatPos(d, i)] = (IF m.par[i] = 0 THEN 0 ELSE FlatPos(d, m.par[i]))
+
 RECURSIVE OpenIncs(_)
 OpenIncs(d) == IF d = << >> THEN 0
                ELSE (CASE Head(d).t = "fb" -> 1 [] Head(d).t = "fe" -> -1 [] OTHER -> 0) + OpenIncs(Tail(d))
 \* the files that are still being read end where the document ends
 Balanced(d) == LET n == OpenIncs(d) IN IF n > 0 THEN d \o Fes(n) ELSE d
 EmitDoc(d0) == LET d == Balanced(d0) IN
-               PrintT("MBT " \o ToJson([doc |-> d, out |-> Meaning(d), impl |-> ImplPred(d)]))
+               PrintT("MBT " \o ToJson([doc |-> d, out |-> Meaning(d), impl |-> ImplPred(d),
+                                         clean |-> CleanIncludes(d) /\ OpenIncs(d0) = 0]))
+
+\* theorem checked on every document the docs mode reaches (all sequences up to the bound, random walks)
+InliningThm ==
+  (History /\ st \in {"done", "err_eof", "rej_ctx", "err_close", "err_open", "err_fe", "err_jsight_inc"}) =>
+     InliningOK(Balanced(doc))
 
 \* graph mode: one document per sampled (state, symbol) pair: canonical prefix, the symbol,
 \* then enough ")" to let the scan stage finish so that the forest becomes observable
